@@ -5,7 +5,9 @@
 package c07
 
 import (
+	"encoding/json"
 	"fmt"
+	"slices"
 	"sync"
 	"testing"
 
@@ -61,6 +63,7 @@ func safeMatch(p acl.Secret, name string) (res bool, panicked any) {
 func TestCheck(t *testing.T) {
 	env := report.FromEnv()
 	rep := env.New("C07")
+	defer rep.Guard(env)
 	rep.Assumptions = []string{
 		"exhaustive over the alphabet {a, b, *, /, ., newline, $, backslash, [, é} up to the length bound, and over a punctuation alphabet {a * % ( ) + ? { ^ | ] - space} one length shorter; the property's 'random Unicode strings up to a few hundred bytes' part is sampling and is not performed",
 	}
@@ -259,6 +262,56 @@ func TestCheck(t *testing.T) {
 		}
 	}
 	rs.States, rs.Transitions = int64(len(sets)), rs.Evaluations
+	// A rule set's answer must depend on what the rule set holds now, not on what the same storage held
+	// when it was consulted before: every ordered pair of one-rule sets goes through one reused variable.
+	ru := rep.Add(&report.Section{Name: "rule-storage-reused", Engine: "enum", Exhaustive: true, Extra: map[string]int64{},
+		Rule: "every ordered pair (R1, R2) of the one-rule sets above through one acl.Rules variable: consult it holding R1 (all actions × names), replace its contents by R2 in three ways {assign the Action and Secret fields in place, copy the rule value and give the copy R2's fields, decode R2's JSON into the same variable as a policy reload does}, consult again: every answer must equal the reference for R2; non-trivial = answers that differ between R1 and R2"})
+	for i := range rules {
+		for j := range rules {
+			r1, r2 := rules[i], rules[j]
+			ref2, ref1 := toRef(acl.Rules{r2}), toRef(acl.Rules{r1})
+			js, err := json.Marshal(acl.Rules{r2})
+			if err != nil {
+				t.Fatal(err)
+			}
+			for _, how := range []string{"fields assigned in place", "copied rule value given new fields", "JSON decoded into the same variable"} {
+				// private copies: decoding JSON into the variable writes into the slices it holds
+				buf := acl.Rules{{Action: slices.Clone(r1.Action), Secret: slices.Clone(r1.Secret)}}
+				for _, a := range queries {
+					for _, nm := range names {
+						allow(buf, a, nm)
+					}
+				}
+				switch how {
+				case "fields assigned in place":
+					buf[0].Action, buf[0].Secret = r2.Action, r2.Secret
+				case "copied rule value given new fields":
+					c := buf[0]
+					c.Action, c.Secret = r2.Action, r2.Secret
+					buf = acl.Rules{c}
+				default:
+					if err := json.Unmarshal(js, &buf); err != nil {
+						t.Fatal(err)
+					}
+				}
+				for _, a := range queries {
+					for _, nm := range names {
+						want := model.Allow(ref2, string(a), nm)
+						got, pan := allow(buf, a, nm)
+						ru.Evaluations++
+						if want != model.Allow(ref1, string(a), nm) {
+							ru.Nontrivial++
+						}
+						if pan != nil || got != want {
+							rep.Violate(ru.Name, "rules/stale-after-reuse: "+how, fmt.Sprintf("a rule set variable that held %+v and was consulted, then holds %+v (%s): Allow(%s,%q)=%v panic=%v, reference for the current contents %v", r1, r2, how, a, nm, got, pan, want), map[string]any{"first": i, "second": j, "how": how})
+						}
+					}
+				}
+			}
+		}
+	}
+	ru.States, ru.Transitions = int64(len(rules)*len(rules)*3), ru.Evaluations
+	ru.Samples = append(ru.Samples, fmt.Sprintf("%d rules × %d rules × 3 ways × %d actions × %d names", len(rules), len(rules), len(queries), len(names)))
 	rs.Samples = append(rs.Samples, fmt.Sprintf("%d rule sets × %d actions × %d names", len(sets), len(queries), len(names)))
 	if err := rep.Write(env); err != nil {
 		t.Fatal(err)
